@@ -32,6 +32,9 @@ func New(tr drpc.Transport) *Conn { return NewWithOptions(tr, Options{}) }
 func NewWithOptions(tr drpc.Transport, opts Options) *Conn {
 	c := &Conn{tr: tr}
 	c.raw, _ = tr.(*net.FakeConn)
+	if u, ok := tr.(interface{ ZZFake() *net.FakeConn }); ok {
+		c.raw = u.ZZFake() // the TLS model wraps the contract connection
+	}
 	return c
 }
 
